@@ -16,7 +16,7 @@ grep -rl "/repo/" $MX/verif/mc --include=*.toml --include=*.rs | xargs sed -i "s
 ( cd $MX/repo && git apply "$P" ) || { echo "$n APPLY-FAILED"; exit 3; }
 for id in "${ids[@]}"; do
   ( cd $MX/verif && VERIF_DIR=$MX/verif ./run.sh $id quick > $MX/logs/$n.$id.log 2>&1 ); rc=$?
-  first=$(grep -A2 -E "^--- violation 0 " $MX/logs/$n.$id.log | grep detail | cut -c1-200)
+  first=$(grep -a -A2 -E "^--- violation 0 " $MX/logs/$n.$id.log | grep -a detail | cut -c1-200)
   echo "$n $id exit=$rc $first"
 done
 ( cd $MX/repo && git checkout -q -- . )
